@@ -349,16 +349,17 @@ def main(argv=None):
                             inconclusive=inconclusive, corpus_replayed=corpus_replayed,
                             shards=shards, cases_per_shard=cases, **extra),
               assumptions=getattr(mod, "ASSUMPTIONS", []))
-    os.makedirs(os.path.join(VERIF, "evidence"), exist_ok=True)
+    evdir = os.environ.get("VERIF_EVIDENCE_DIR") or os.path.join(VERIF, "evidence")   # scratch dir for sensitivity runs
+    os.makedirs(evdir, exist_ok=True)
     try:
         validate_evidence(ev)
     except Exception as ex:
         if not violations:
             print("CHECK-ERROR evidence does not validate: %s" % str(ex)[:300])
-            with open(os.path.join(VERIF, "evidence", prop + ".json"), "w") as f:
+            with open(os.path.join(evdir, prop + ".json"), "w") as f:
                 json.dump(ev, f, indent=1, default=str)
             return 2
-    with open(os.path.join(VERIF, "evidence", prop + ".json"), "w") as f:
+    with open(os.path.join(evdir, prop + ".json"), "w") as f:
         json.dump(ev, f, indent=1, default=str)
 
     print("%s %s: evaluations=%d distinct_nontrivial=%d violations=%d wall=%.1fs labels=%s" % (
